@@ -12,6 +12,10 @@ from pv.props import sem_common as S
 from pv.ref import pddl
 from pv.runner import Res
 
+# thorough tier: the same streams under three string-hash seeds (the iteration order of the library's
+# string-hashed sets is part of the implicit schedule)
+CONFIGS_THOROUGH = {"hash0": {"PYTHONHASHSEED": "0"}, "hash1": {"PYTHONHASHSEED": "1"}, "hash2": {"PYTHONHASHSEED": "2"}}
+
 ID = "C03"
 RULE = ("generated fragment-F domains with unconditional, conditional (when) and universally quantified (forall-when) "
         "discrete and numeric effects x states x type-correct calls, restricted to calls the reference finds "
@@ -173,4 +177,4 @@ def gen(ch, tier):
 def plan(tier):
     if tier == "quick":
         return {"streams": {"main": 12000}, "shards": 16}
-    return {"streams": {"main": 240000}, "shards": 16}
+    return {"streams": {"main": 80000}, "shards": 5}    # per hash-seed configuration
